@@ -635,16 +635,18 @@ structure UStep (a b : MF) : Prop where
   yv : b.y.vars = a.y.vars
   flags : b.combineFlags = a.combineFlags
   esc : b.escaped = a.escaped
+  fuel : b.fuelOut = false → a.fuelOut = false
   good : Good a.n a.x ∧ Good a.n a.y → Good b.n b.x ∧ Good b.n b.y
 
-theorem UStep.refl (a : MF) : UStep a a := ⟨rfl, rfl, rfl, rfl, rfl, id⟩
+theorem UStep.refl (a : MF) : UStep a a := ⟨rfl, rfl, rfl, rfl, rfl, id, id⟩
 theorem UStep.trans {a b c : MF} (h1 : UStep a b) (h2 : UStep b c) : UStep a c :=
   ⟨h2.n.trans h1.n, h2.xv.trans h1.xv, h2.yv.trans h1.yv, h2.flags.trans h1.flags,
-   h2.esc.trans h1.esc, fun h => h2.good (h1.good h)⟩
+   h2.esc.trans h1.esc, fun h => h1.fuel (h2.fuel h), fun h => h2.good (h1.good h)⟩
 
 theorem UStep.of_same {a b : MF} (hn : b.n = a.n) (hx : b.x = a.x) (hy : b.y = a.y)
-    (hf : b.combineFlags = a.combineFlags) (he : b.escaped = a.escaped) : UStep a b := by
-  refine ⟨hn, by rw [hx], by rw [hy], hf, he, ?_⟩
+    (hf : b.combineFlags = a.combineFlags) (he : b.escaped = a.escaped)
+    (hu : b.fuelOut = a.fuelOut) : UStep a b := by
+  refine ⟨hn, by rw [hx], by rw [hy], hf, he, by rw [hu]; exact id, ?_⟩
   rw [hn, hx, hy]
   exact id
 
@@ -653,22 +655,23 @@ theorem trial_ustep (mf : MF) (cc sub k : Nat) (a : Alt)
   have hn := trial_n mf cc sub k a
   have hf := trial_flags mf cc sub k a
   have he := trial_esc mf cc sub k a
+  have hu := trial_fuel mf cc sub k a
   obtain ⟨d, c⟩ := a
   cases d with
   | x =>
     have hc := wf_x hwf
     have hx := trial_x_x mf cc sub k c
     have hy := trial_x_y mf cc sub k c
-    generalize (mf.trial cc sub k ⟨.x, c⟩).1 = b at hn hf he hx hy ⊢
-    refine ⟨hn, by rw [hx]; exact tryCon_vars _ _ _ _, by rw [hy], hf, he, fun hg => ?_⟩
+    generalize (mf.trial cc sub k ⟨.x, c⟩).1 = b at hn hf he hu hx hy ⊢
+    refine ⟨hn, by rw [hx]; exact tryCon_vars _ _ _ _, by rw [hy], hf, he, hu, fun hg => ?_⟩
     rw [hn, hx, hy]
     exact ⟨(tryCon_good mf.n mf.x c (cc, sub) hg.1 hc).1, hg.2⟩
   | y =>
     have hc := wf_y hwf
     have hx := trial_y_x mf cc sub k c
     have hy := trial_y_y mf cc sub k c
-    generalize (mf.trial cc sub k ⟨.y, c⟩).1 = b at hn hf he hx hy ⊢
-    refine ⟨hn, by rw [hx], by rw [hy]; exact tryCon_vars _ _ _ _, hf, he, fun hg => ?_⟩
+    generalize (mf.trial cc sub k ⟨.y, c⟩).1 = b at hn hf he hu hx hy ⊢
+    refine ⟨hn, by rw [hx], by rw [hy]; exact tryCon_vars _ _ _ _, hf, he, hu, fun hg => ?_⟩
     rw [hn, hx, hy]
     exact ⟨hg.1, (tryCon_good mf.n mf.y c (cc, sub) hg.2 hc).1⟩
 
@@ -691,8 +694,8 @@ theorem runSub_ustep (mf : MF) (cc sub : Nat) (alts : List Alt)
     UStep mf (mf.runSub cc sub alts) := by
   unfold MF.runSub
   split
-  · exact UStep.of_same rfl rfl rfl rfl rfl
-  · exact (tryAlts_ustep cc sub alts mf 0 h).trans (UStep.of_same rfl rfl rfl rfl rfl)
+  · exact UStep.of_same rfl rfl rfl rfl rfl rfl
+  · exact (tryAlts_ustep cc sub alts mf 0 h).trans (UStep.of_same rfl rfl rfl rfl rfl rfl)
 
 theorem runSubs_ustep (cc : Nat) : ∀ (subs : List (List Alt)) (mf : MF) (i : Nat),
     (∀ alts ∈ subs, ∀ a ∈ alts, Alt.wf mf.x.vars.size mf.y.vars.size a = true) →
